@@ -14,7 +14,7 @@ open Depccg Search
 /-- the derivations returned are those of the goal list of the final state -/
 theorem mem_results_d {pick : Pick} {g : Grammar} {s : Sent} {cfg : Cfg} {d : Deriv} :
     d ∈ (runWith pick g s cfg).results.map (·.d) ↔
-      ∃ r ∈ (loop pick g s cfg cfg.maxStep (init s cfg)).goal, r.d = d := by
+      ∃ r ∈ (loop pick g s cfg cfg.maxStep (init pick s cfg)).goal, r.d = d := by
   show d ∈ (sortDesc _).map (·.d) ↔ _
   rw [List.mem_map]
   constructor
@@ -45,19 +45,19 @@ theorem nbest_unreturned_not_better (pick : Pick) (g : Grammar) (s : Sent) (cfg 
 /-- when the budget did not run out and the goal list is not full, the agenda is empty -/
 theorem agenda_empty_of_short {pick : Pick} {g : Grammar} {s : Sent} {cfg : Cfg} (hp : PickOK pick)
     (hsteps : (runWith pick g s cfg).steps < cfg.maxStep)
-    (hshort : (loop pick g s cfg cfg.maxStep (init s cfg)).goal.length < cfg.nbest) :
-    (loop pick g s cfg cfg.maxStep (init s cfg)).agenda = [] := by
-  have hsteps' : (loop pick g s cfg cfg.maxStep (init s cfg)).steps < cfg.maxStep := hsteps
-  rcases loop_stuck_or_fuel (pick := pick) (g := g) (s := s) (cfg := cfg) cfg.maxStep (init s cfg)
+    (hshort : (loop pick g s cfg cfg.maxStep (init pick s cfg)).goal.length < cfg.nbest) :
+    (loop pick g s cfg cfg.maxStep (init pick s cfg)).agenda = [] := by
+  have hsteps' : (loop pick g s cfg cfg.maxStep (init pick s cfg)).steps < cfg.maxStep := hsteps
+  rcases loop_stuck_or_fuel (pick := pick) (g := g) (s := s) (cfg := cfg) cfg.maxStep (init pick s cfg)
     with hstuck | hfuel
   · rcases stepWith_none_iff.1 hstuck with hfull | hnone
     · omega
     · apply Classical.byContradiction
       intro hne
-      obtain ⟨it, rest, e, _⟩ := hp.2 _ hne
+      obtain ⟨it, rest, e, _⟩ := hp.2.1 _ hne
       rw [e] at hnone
       cases hnone
-  · have h0 : (init s cfg).steps = 0 := rfl
+  · have h0 : (init pick s cfg).steps = 0 := rfl
     omega
 
 /-- (2) fewer than `nbest` results: every licensed complete parse was returned -/
@@ -68,8 +68,8 @@ theorem nbest_complete_when_short (pick : Pick) (g : Grammar) (s : Sent) (cfg : 
     (d : Deriv) (hd : LicensedRoot g s cfg d) : d ∈ (runWith pick g s cfg).results.map (·.d) := by
   have hok := StOK.final hp g s cfg
   have hnb := NB.final hp g s cfg hn
-  have hshort' : (loop pick g s cfg cfg.maxStep (init s cfg)).goal.length < cfg.nbest := by
-    have : (sortDesc (loop pick g s cfg cfg.maxStep (init s cfg)).goal).length < cfg.nbest := hshort
+  have hshort' : (loop pick g s cfg cfg.maxStep (init pick s cfg)).goal.length < cfg.nbest := by
+    have : (sortDesc (loop pick g s cfg cfg.maxStep (init pick s cfg)).goal).length < cfg.nbest := hshort
     rwa [(sortDesc_perm _).length_eq] at this
   have hempty := agenda_empty_of_short hp hsteps hshort'
   rcases coverFin hs hpen hok hnb hd with hgoal | ⟨a, ha, _⟩
@@ -91,7 +91,7 @@ namespace Demo
 /-- the hypotheses hold for the demo run (`nbest = 2`, 8 steps of 100), so its two results are
     the two best licensed complete parses and they are different trees -/
 example :
-    let res := (run g s cfg).results
+    let res := (runWith pickFirstMax g s cfg).results
     (∀ d, LicensedRoot g s cfg d → d ∉ res.map (·.d) → ∀ r ∈ res, modelScore s cfg d ≤ r.prio) ∧
     (res.length < cfg.nbest → ∀ d, LicensedRoot g s cfg d → d ∈ res.map (·.d)) ∧
     (res.map (·.d)).Nodup :=
